@@ -399,6 +399,7 @@ pub fn big(seed: u64, dir: &str) {
             if limit > 0 {
                 c.set_max_memory(mem_for_limit(limit));
             }
+            c.set_acgt_output(k == 31);      // (all-A / all-T k-mers rendered as text at the largest k)
             c.count();
             c.merge(true);
         });
@@ -407,7 +408,7 @@ pub fn big(seed: u64, dir: &str) {
             Ok(()) => println!(
                 "{}",
                 json!({"ev":"ctrbig","k":k,"recs":recs,"limit":limit,"threads":threads,
-                       "lines":decode_counts(&format!("{}/kmers.counts", od), false),"temps":list_temps(&od).len()})
+                       "lines":decode_counts_k(&format!("{}/kmers.counts", od), k == 31, Some(k)),"temps":list_temps(&od).len()})
             ),
             Err(_) => println!("{}", json!({"ev":"crash","kind":"panic"})),
         }
